@@ -4,9 +4,11 @@ use crate::common::{Report, Tier};
 use crate::explore::{explore, record, Caps};
 use crate::hist::{HistCfg, HistSystem};
 
+pub mod bulk_props;
 pub mod c01;
 pub mod c08;
 pub mod c09;
+pub mod c10;
 pub mod c13;
 pub mod hist_props;
 pub mod kernel_props;
@@ -30,7 +32,10 @@ pub fn run(id: &str, tier: Tier) -> i32 {
         "C12" => kernel_props::c12(tier),
         "C08" => c08::run(tier),
         "C09" => c09::run(tier),
+        "C10" => c10::run(tier),
         "C13" => c13::run(tier),
+        "C14" => bulk_props::c14(tier),
+        "C20" => bulk_props::c20(tier),
         "C16" => format_props::c16(tier),
         "C17" => format_props::c17(tier),
         other => {
